@@ -128,7 +128,7 @@ def callee_is_vp(c):
     if c.get("resolved") in VP_KEYS:
         return True
     # inherent methods on slices/str print with impl-block noise; match by method name
-    if ("<impl [T]>" in k or "<impl str>" in k or k.startswith("str::") or k.startswith("[T]::")) \
+    if ("<impl [T]>" in k or "<impl str>" in k or k.startswith("str::") or k.startswith("[T]::") or k.startswith("[T; N]::")) \
             and c["name"] in VP_NAMES_ON_SLICES:
         return True
     return False
@@ -140,6 +140,7 @@ class Prov:
         self._memo = {}
         self._defs = {}
         self._closure_sites = {}
+        self._closure_inv = {}
         self._mut_idx = {}
         self._kill_idx = {}
         self._ctor_like = {}
@@ -523,6 +524,15 @@ class Prov:
                               ("call", FROM_RESIDUAL, (payload(args[0], "err"),), "<std::result::Result as std::ops::FromResidual>::from_residual", (fn.key, "agg"))])
         if c["key"] == "<indirect>":
             return ("call", "<indirect>", (self.operand(fn, c["indirect"], site),) + args, None, (fn.key, bid))
+        if c.get("trait", "").startswith("std::ops::Fn") and c["name"] in ("call_once", "call_mut", "call") and args:
+            # invoking a closure that is defined in this crate: its result (its parameters are bound to this call's
+            # arguments by _closure_param / closure_invocation)
+            cl = peel(args[0])
+            g = self.facts.fn(cl[1]) if cl[0] == "closure" else None
+            if g is not None and g.key != fn.key:
+                inv = self.closure_invocation(g)
+                if inv is not None and inv[0].key == fn.key and inv[1] == bid:
+                    return self.ret(g)
         if c.get("local"):
             g = self.facts.fn(c.get("resolved") or c["key"])
             if g is not None and self._is_constructor_like(g) and len(args) == g.arg_count:
@@ -620,9 +630,40 @@ class Prov:
                     return parent, cb, t, ai
         return None
 
+    def closure_invocation(self, fn):
+        """a direct invocation `f(a, b)` / `FnOnce::call_once(f, (a, b))` of closure `fn` somewhere in the lexical family of
+        its parent (typically after a helper taking `impl FnOnce(..)` was spliced): (function, block, terminator)"""
+        if fn.key in self._closure_inv:
+            return self._closure_inv[fn.key]
+        self._closure_inv[fn.key] = None
+        res = None
+        root = fn.key.split("::{closure")[0]
+        for g in self.facts.lexical(root):
+            if g.key == fn.key:
+                continue
+            for b, t in g.calls():
+                c = t["callee"]
+                if not (c.get("trait", "").startswith("std::ops::Fn") and c["name"] in ("call_once", "call_mut", "call")) or not t["args"]:
+                    continue
+                o = peel(self.operand(g, t["args"][0], (b, "t")))
+                if o[0] == "closure" and o[1] == fn.key:
+                    res = (g, b, t)
+                    break
+            if res:
+                break
+        self._closure_inv[fn.key] = res
+        return res
+
     def _closure_param(self, fn, l):
         name = fn.names.get(l, "_%d" % l)
         use = self.closure_use(fn)
+        inv = self.closure_invocation(fn) if (use is None or HOF.get(use[2]["callee"]["key"]) is None) else None
+        if inv is not None:
+            g, b, t = inv
+            if len(t["args"]) == 2:
+                tup = peel(self.operand(g, t["args"][1], (b, "t")))
+                if tup[0] == "agg" and tup[1] == "tuple" and 0 <= l - 2 < len(tup[2]):
+                    return tup[2][l - 2][1]
         if use is None:
             return ("cparam", l, name, None)
         parent, cb, t, ai = use
